@@ -12,7 +12,7 @@
     say 3 and 2, so they stop checking when the source says anything else. *)
 From Coq Require Import List ZArith Bool Permutation String.
 From Paloma Require Import Base.Num Cons.Median Cons.MedianProofs Cons.Quorum Cons.QuorumProofs.
-From Paloma Require Cons.EvidenceBytes Cons.EvidenceBytesProofs.
+From Paloma Require Cons.EvidenceBytes Cons.EvidenceBytesProofs Cons.EvidenceHistory Cons.EvidenceHistoryProofs.
 From Paloma Require Gen.C04.
 Import ListNotations.
 Open Scope Z_scope.
@@ -257,6 +257,29 @@ Theorem winner_backers_agree_on_every_field :
     2 * sn_total sn <= 3 * power sn (map EvidenceBytes.pe_val (filter (EvidenceBytesProofs.same_proof wp) pevs)).
 Proof. exact @EvidenceBytesProofs.winner_backers_agree_on_fields. Qed.
 Print Assumptions winner_backers_agree_on_every_field.
+
+(** Over all histories of one queued request — submissions through Keeper.AddMessageEvidence (a proof
+    that is absent or not hashable is refused), attestation runs under ANY snapshots and iteration orders:
+    if the request was removed with winner [w], then at the run that removed it the stored evidence had
+    one entry per validator, each entry the validator's LATEST accepted submission, and the validators
+    whose entry equals the winner's proof in every field held two thirds of that run's snapshot (or the
+    arbitrary hash [h] has an explicit collision).  After the removal nothing changes any more. *)
+Theorem request_removed_only_with_two_thirds_on_fields :
+  forall (K : Type) (keqb : K -> K -> bool) (h : Z -> Z -> K),
+  (forall a b, keqb a b = true <-> a = b) ->
+  forall (ops : list (@EvidenceHistory.att_op K)) (w : evidence),
+  Forall (@EvidenceHistory.op_ok K) ops ->
+  EvidenceHistory.as_won (fold_left (EvidenceHistory.att_step keqb h) ops EvidenceHistory.att_init) = Some w ->
+  exists pre sn ord post, ops = pre ++ EvidenceHistory.AoProcess sn ord :: post /\
+    let evs := EvidenceHistory.as_evs (fold_left (EvidenceHistory.att_step keqb h) pre EvidenceHistory.att_init) in
+    EvidenceHistory.as_evs (fold_left (EvidenceHistory.att_step keqb h) ops EvidenceHistory.att_init) = evs /\
+    NoDup (map EvidenceBytes.pe_val evs) /\
+    (forall v, EvidenceHistory.lookup_pev evs v = EvidenceHistory.lookup_pev (rev (@EvidenceHistory.accepted K pre)) v) /\
+    ((exists t d t' d', (t, d) <> (t', d') /\ h t d = h t' d') \/
+     exists wp, In wp evs /\ w = EvidenceBytes.ev_of wp /\
+       2 * sn_total sn <= 3 * power sn (map EvidenceBytes.pe_val (filter (EvidenceBytesProofs.same_proof wp) evs))).
+Proof. exact @EvidenceHistoryProofs.removed_only_with_two_thirds_on_fields. Qed.
+Print Assumptions request_removed_only_with_two_thirds_on_fields.
 
 
 (* --- source translation tie (GenFn) --- *)
